@@ -68,6 +68,7 @@ type FnTx struct {
 	entry    *State
 	curBlock *ssa.BasicBlock
 	curReach string
+	curIdx   int
 
 	localAlloc map[*ssa.Alloc]bool
 	privFV     map[*ssa.FreeVar]bool
@@ -495,6 +496,9 @@ func (tx *FnTx) locOfPointer(p ssa.Value, st *State) *Loc {
 	if _, isStruct := pt.Elem().Underlying().(*types.Struct); isStruct && !isTimeType(pt.Elem()) {
 		return nil // struct pointee: handled field-wise
 	}
+	if _, isArr := pt.Elem().Underlying().(*types.Array); isArr {
+		return nil // arrays behind pointers live in the element heap
+	}
 	ref := tx.val(p)
 	return &Loc{Kind: locHeap, Comp: tx.h.cellComp(pt.Elem()), Ref: ref.S, T: pt.Elem()}
 }
@@ -653,12 +657,20 @@ func (tx *FnTx) findLoops() {
 
 // resolveLocalAt returns a resolver of source-level variable names to SSA values as of the top of block b.
 func (tx *FnTx) resolverAt(b *ssa.BasicBlock, phiOverride map[*ssa.Phi]Term, atEnd bool) func(string) (Term, *Loc, bool) {
+	return tx.resolverUpTo(b, phiOverride, atEnd, -1)
+}
+
+// resolverUpTo: like resolverAt, but in block b only instructions with index < limit are considered (limit<0: all).
+func (tx *FnTx) resolverUpTo(b *ssa.BasicBlock, phiOverride map[*ssa.Phi]Term, atEnd bool, limit int) func(string) (Term, *Loc, bool) {
 	return func(name string) (Term, *Loc, bool) {
 		// range-loop iteration counter: $i = completed iterations
 		cur := b
 		first := true
 		for cur != nil {
 			instrs := cur.Instrs
+			if first && limit >= 0 && limit < len(instrs) {
+				instrs = instrs[:limit]
+			}
 			for k := len(instrs) - 1; k >= 0; k-- {
 				in := instrs[k]
 				if first && !atEnd {
@@ -940,10 +952,11 @@ func (tx *FnTx) execBlock(b *ssa.BasicBlock) {
 	if li != nil {
 		st = tx.enterLoop(li, st)
 	}
-	for _, in := range b.Instrs {
+	for k, in := range b.Instrs {
 		if _, ok := in.(*ssa.Phi); ok {
 			continue
 		}
+		tx.curIdx = k
 		st = tx.exec(in, st)
 		if st == nil {
 			return // block terminated (return/panic)
@@ -1313,6 +1326,21 @@ func (tx *FnTx) finishReturns() {
 	for _, rp := range tx.retStates {
 		env := tx.baseEnv(rp.st, tx.entry)
 		tx.bindResults(env, rp.results)
+		// postconditions may mention local variables: their value at this return point; a local that is not
+		// defined on the path to this return is an unconstrained value (the clause must hold for any value)
+		rb := tx.fn.Blocks[rp.block]
+		inner := tx.resolverAt(rb, nil, true)
+		env.resolve = func(name string) (Term, *Loc, bool) {
+			if t, l, ok := inner(name); ok {
+				return t, l, ok
+			}
+			if gt := tx.localNamed(name); gt != nil {
+				n := fmt.Sprintf("undefLocal_%s_b%d", sanitize(name), rp.block)
+				tx.d.declConst(n, tx.d.sortOf(gt))
+				return Term{S: n, Sort: tx.d.sortOf(gt), GT: gt}, nil, true
+			}
+			return Term{}, nil, false
+		}
 		suffix := ""
 		if len(tx.retStates) > 1 {
 			suffix = fmt.Sprintf("@b%d", rp.block)
@@ -1338,6 +1366,22 @@ func (tx *FnTx) finishReturns() {
 		}
 		tx.oblige("cover", "ret"+suffix, "false", rp.reach, "return point is reachable")
 	}
+}
+
+// localNamed returns the type of some local variable of the function with this name (nil if none).
+func (tx *FnTx) localNamed(name string) types.Type {
+	for _, b := range tx.fn.Blocks {
+		for _, in := range b.Instrs {
+			if dr, ok := in.(*ssa.DebugRef); ok {
+				if obj := dr.Object(); obj != nil && obj.Name() == name {
+					if v, ok := obj.(*types.Var); ok {
+						return v.Type()
+					}
+				}
+			}
+		}
+	}
+	return nil
 }
 
 func (tx *FnTx) bindResults(env *SpecEnv, results []Term) {
